@@ -22,18 +22,18 @@ fn cps(s: &str) -> Vec<u32> {
     s.chars().map(|c| c as u32).collect()
 }
 
-struct Rec {
-    out: Out,
-    n: u64,
+pub struct Rec {
+    pub out: Out,
+    pub n: u64,
     /// valid date-times produced so far (inputs for later calls)
-    pool: Vec<UtcDateTime>,
+    pub pool: Vec<UtcDateTime>,
 }
 impl Rec {
     fn emit(&mut self, v: Value) {
         self.n += 1;
         self.out.emit(&v);
     }
-    fn new_dt(&mut self, y: u32, mo: u8, d: u8, h: u8, mi: u8, s: u8) -> Option<UtcDateTime> {
+    pub fn new_dt(&mut self, y: u32, mo: u8, d: u8, h: u8, mi: u8, s: u8) -> Option<UtcDateTime> {
         let r = catch(|| UtcDateTime::new(y, mo, d, h, mi, s));
         let (o, v) = match &r {
             Ok(Ok(dt)) => ("ok", Some(*dt)),
@@ -47,7 +47,7 @@ impl Rec {
         }
         v
     }
-    fn from_instant(&mut self, t: i64) -> Option<UtcDateTime> {
+    pub fn from_instant(&mut self, t: i64) -> Option<UtcDateTime> {
         let r = catch(|| UtcDateTime::from_instant(&Instant::new(t)));
         match r {
             Ok(Ok(dt)) => {
@@ -64,7 +64,7 @@ impl Rec {
             }
         }
     }
-    fn to_instant(&mut self, dt: &UtcDateTime) -> Option<i64> {
+    pub fn to_instant(&mut self, dt: &UtcDateTime) -> Option<i64> {
         match catch(|| dt.to_instant()) {
             Ok(i) => {
                 self.emit(json!({"a": "to_instant", "dt": dtj(dt), "out": "ok", "t": bi(i.seconds_since_unix_epoch)}));
@@ -76,7 +76,7 @@ impl Rec {
             }
         }
     }
-    fn dt_add(&mut self, dt: &UtcDateTime, u: &str, n: i64) {
+    pub fn dt_add(&mut self, dt: &UtcDateTime, u: &str, n: i64) {
         let r = catch(|| match u {
             "days" => dt.add_days(n),
             "hours" => dt.add_hours(n),
@@ -90,7 +90,7 @@ impl Rec {
         };
         self.emit(json!({"a": "dt_add", "dt": dtj(dt), "u": u, "n": bi(n), "out": o, "r": v}));
     }
-    fn inst_add(&mut self, t: i64, u: &str, n: i64) {
+    pub fn inst_add(&mut self, t: i64, u: &str, n: i64) {
         let i = Instant::new(t);
         let r = catch(|| match u {
             "days" => i.add_days(n),
@@ -105,7 +105,7 @@ impl Rec {
         };
         self.emit(json!({"a": "inst_add", "t": bi(t), "u": u, "n": bi(n), "out": o, "r": v}));
     }
-    fn mono(&mut self, t1: i64, t2: i64) {
+    pub fn mono(&mut self, t1: i64, t2: i64) {
         let a = catch(|| UtcDateTime::from_instant(&Instant::new(t1)));
         let b = catch(|| UtcDateTime::from_instant(&Instant::new(t2)));
         if let (Ok(Ok(a)), Ok(Ok(b))) = (a, b) {
@@ -117,7 +117,7 @@ impl Rec {
             self.emit(json!({"a": "mono", "t1": bi(t1), "t2": bi(t2), "dt1": dtj(&a), "dt2": dtj(&b), "ord": ord}));
         }
     }
-    fn print(&mut self, dt: &UtcDateTime) -> Option<String> {
+    pub fn print(&mut self, dt: &UtcDateTime) -> Option<String> {
         match catch(|| dt.to_string()) {
             Ok(s) => {
                 self.emit(json!({"a": "print", "dt": dtj(dt), "out": "ok", "cp": cps(&s)}));
@@ -129,7 +129,7 @@ impl Rec {
             }
         }
     }
-    fn parse(&mut self, s: &str) {
+    pub fn parse(&mut self, s: &str) {
         let r = catch(|| UtcDateTime::from_str(s));
         let (o, v) = match r {
             Ok(Ok(dt)) => ("ok", dtj(&dt)),
